@@ -150,12 +150,12 @@ class LtlHorizon(LtlAstVisitor):
         return op_horizon
 
     def visitNext(self, node, *args, **kwargs):
-        op_horizon = self.visit(node.children[0], *args, **kwargs)
+        op_horizon = self.visit(node.children[0], *args, **kwargs) + 1
         self.horizons[node] = op_horizon
         return op_horizon
 
     def visitStrongNext(self, node, *args, **kwargs):
-        op_horizon = self.visit(node.children[0], *args, **kwargs)
+        op_horizon = self.visit(node.children[0], *args, **kwargs) + 1
         self.horizons[node] = op_horizon
         return op_horizon
 
